@@ -95,6 +95,9 @@ func C04(sp *spec.Spec, ex *rt.Exchange) *Verdict {
 		v.Inconclusive = "unknown method"
 		return v
 	}
+	if ex.Case.Stream != nil {
+		return c04Stream(sp, m, ex)
+	}
 	if ex.BuildErr != "" {
 		v.Inconclusive = "value builder: " + firstLine(ex.BuildErr)
 		return v
@@ -569,4 +572,104 @@ func paramTagsOnly(class string, tags []string) []string {
 		}
 	}
 	return out
+}
+
+// c04Stream judges a streaming exchange in which one streamed message carries a boundary probe (cases.StreamInvalid):
+// a message that violates the streaming payload's constraints must not be handed to the service method by Recv (the
+// messages before it are; what follows it is not judged).
+func c04Stream(sp *spec.Spec, m *spec.Method, ex *rt.Exchange) *Verdict {
+	v := &Verdict{}
+	if !streamPre(ex, v) {
+		return v
+	}
+	if m.StreamP == nil || len(ex.Case.Stream.Send) == 0 {
+		v.Inconclusive = "no streamed payload"
+		return v
+	}
+	if ex.Stream.Handshake != 101 && ex.Stream.Handshake != 0 {
+		v.Inconclusive = "handshake refused (C02/C04 of the initial payload)"
+		return v
+	}
+	k := -1
+	if f, ok := ex.Case.Note["stream_probe_index"].(float64); ok {
+		k = int(f)
+	} else if n, ok := ex.Case.Note["stream_probe_index"].(int); ok {
+		k = n
+	}
+	if k < 0 || k >= len(ex.Case.Stream.Send) {
+		v.Inconclusive = "no probe index"
+		return v
+	}
+	// the other messages must be valid, the probed one decides
+	for i, msg := range ex.Case.Stream.Send {
+		var viol []Violation
+		var und []string
+		Validate(sp, m.StreamP.Type, m.StreamP.Val, msg, "", &viol, &und, 0)
+		if len(und) > 0 {
+			v.Inconclusive = "undecidable format instance"
+			return v
+		}
+		if i != k && len(viol) > 0 {
+			v.Inconclusive = "case generator produced an invalid message outside the probe"
+			return v
+		}
+		if i == k {
+			site := noteStr(ex.Case, "site")
+			fake := streamFake(m, m.StreamP)
+			tags := mergeTags(Explain(sp, fake, msg), siteTags(sp, fake, m.StreamP, site, false))
+			if n := len(ex.Stream.StubRecv); n < k && ex.Stream.StubEnd != "eof" && ex.Stream.StubEnd != "count" && ex.Stream.StubEnd != "" {
+				// the stream ended at an EARLIER message, which satisfies the design: that one was refused
+				name := ex.Stream.StubEndName
+				if name == "" {
+					name = "error"
+				}
+				etags := Explain(sp, fake, ex.Case.Stream.Send[n])
+				v.add(mkKey("rejected:"+name, "valid-streamed-message-refused:"+name, fmt.Sprintf("unprobed:%s", kindOf(sp, m.StreamP.Type)), etags),
+					"streamed message #%d satisfies the design but the service's Recv ended with %q", n, trunc(ex.Stream.StubEnd, 160))
+				return v
+			}
+			if len(viol) > 0 {
+				// a zero value of a defaulted attribute may be left out by the client and replaced by the default
+				var viol2 []Violation
+				var und2 []string
+				Validate(sp, m.StreamP.Type, m.StreamP.Val, zeroToDefault(sp, m.StreamP.Type, msg, 0), "", &viol2, &und2, 0)
+				if len(viol2) != len(viol) {
+					v.Inconclusive = "zero value of a defaulted attribute decides validity (ambiguity class)"
+					return v
+				}
+			}
+			if len(viol) == 0 {
+				// valid side of the rule: Recv must deliver it
+				if len(ex.Stream.StubRecv) <= k && ex.Stream.StubEnd != "eof" && ex.Stream.StubEnd != "count" && ex.Stream.StubEnd != "" {
+					name := ex.Stream.StubEndName
+					if name == "" {
+						name = "error"
+					}
+					v.add(mkKey("rejected:"+name, "valid-streamed-message-refused:"+name, fmt.Sprintf("%s:%s", siteClass(site), kindOf(sp, m.StreamP.Type)), tags),
+						"streamed message #%d satisfies the design (%s) but the service's Recv ended with %q after %d messages", k, site, trunc(ex.Stream.StubEnd, 160), len(ex.Stream.StubRecv))
+				}
+				return v
+			}
+			names, _ := ruleNames(viol)
+			if !ex.Case.Stream.RawClient {
+				// the generated client sends Go values: a removed required attribute whose field is not a pointer goes
+				// out as its zero value, which is a different (possibly valid) message
+				for _, vi := range viol {
+					if vi.Rule == "required" {
+						v.Inconclusive = "a missing required attribute cannot be expressed through the generated client (zero value)"
+						return v
+					}
+				}
+			}
+			if len(ex.Stream.StubRecv) > k {
+				client := "gen"
+				if ex.Case.Stream.RawClient {
+					client = "raw"
+				}
+				v.add(mkKey("leaked", "invalid-streamed-message-reached-stub", fmt.Sprintf("%s:%s:%s:%s-client", m.Stream, siteClass(site), kindOf(sp, m.StreamP.Type), client), tags),
+					"streamed message #%d violates %v (%s) yet the service method received it: %s", k, names, site, vtree.Show(ex.Stream.StubRecv[k]))
+			}
+		}
+	}
+	return v
 }
